@@ -44,6 +44,7 @@ CONSTANTS Cases,           \* set of cases explored by the model
           DevF13,          \* deviation (finding F13, repaired): residue attributes missing on the atoms of the first residue
           DevVerKey,       \* deviation (finding F17, repaired): WriteBack also drops every interaction whose VERSION number equals the node key of a removed atom
           DevDangEnd,      \* deviation: a dangling interaction is also expected in windows that stick out of the chain end
+          DevRepBeforePattern, \* deviation (independent seed2-C02-1): replace / removal is carried out before the pattern veto and not rolled back
           DevLastOfName,   \* deviation (independent seed4-C02-1): a link atom with one plain atom name is looked up in a name -> atom table that keeps only the LAST atom of a repeated name
           DevNoAtomResname,\* deviation (independent seed C02-2): the residue name is not compared when the atoms of a link are looked up
           DevOrderedPairs, \* deviation (independent seed C10-2): joined residue pairs are collected and looked up as ORDERED pairs
@@ -91,7 +92,9 @@ NAt(c, r) == Len(BlockOf(c, r).atoms)
 AtomsOf(c, r) == {<<r, i>> : i \in 1..NAt(c, r)}
 Atoms(c) == UNION {AtomsOf(c, r) : r \in Rs(c)}
 MolAttr0(c, at) == BlockOf(c, at[1]).atoms[at[2]]            \* node attributes of molecule.nodes
-FragAttr(c, at) == Overlay(MolAttr0(c, at), c.rattr[at[1]])  \* node attributes of meta_molecule.nodes[r]["graph"]
+\* node attributes of meta_molecule.nodes[r]["graph"]; atoms of .itp blocks also carry their position in the block as attribute "index"
+\* (only the links made from dangling .itp interactions ever ask for it: it tells atoms of equal name and type apart)
+FragAttr(c, at) == LET f == Overlay(MolAttr0(c, at), c.rattr[at[1]]) IN IF "index" \in DOMAIN f THEN f ELSE Overlay(f, [index |-> ToString(at[2])])
 FirstRes(c) == CHOOSE r \in Rs(c) : \A s \in Rs(c) : c.resid[r] <= c.resid[s]
 EdgePairs(x) == IF x.edge THEN { {x.atoms[j], x.atoms[j + 1]} : j \in 1..(Len(x.atoms) - 1) } ELSE {}
 \* edges of a block: consecutive atoms of its edge-making interactions, plus (for blocks projected from real objects) explicit ones
@@ -310,7 +313,7 @@ ItpLink(b, grp) ==
       posOf(x) == CHOOSE p \in DOMAIN gl : gl[p] = x
   IN [orders |-> [p \in DOMAIN os |-> O("num", os[p])],
       atoms |-> [p \in DOMAIN gl |-> [oi |-> CHOOSE q \in DOMAIN os : os[q] = gl[p] \div n,
-                                       sel |-> [k \in DOMAIN b.atoms[(gl[p] % n) + 1] |-> <<b.atoms[(gl[p] % n) + 1][k]>>],
+                                       sel |-> Overlay([k \in DOMAIN b.atoms[(gl[p] % n) + 1] |-> <<b.atoms[(gl[p] % n) + 1][k]>>], [index |-> <<ToString((gl[p] % n) + 1)>>]),
                                        rep |-> <<>>, del |-> FALSE]],
       inters |-> [j \in 1..(grp.hi - grp.lo + 1) |-> [kind |-> b.dang[grp.lo + j - 1].kind, atoms |-> [q \in DOMAIN idx |-> posOf(idx[q])],
                                                      par |-> b.dang[grp.lo + j - 1].par, ver |-> (grp.hi - grp.lo + 1) - j + 1, edge |-> TRUE]],
@@ -369,7 +372,10 @@ TryMatch(phi) ==
   /\ LET l == case.links[st.li]
          iv == IImgVec(case, l, phi)
          out == IOutcome(case, l, phi, iv, st.V)
-     IN st' = IF out # "applied"
+     IN st' = IF out = "pattern" /\ DevRepBeforePattern
+              THEN [st EXCEPT !.todo = @ \ {phi}, !.calls = @ \cup {[li |-> st.li, phi |-> phi, out |-> out]},
+                              !.rm = @ \cup DelImg(l, iv), !.V = [edges |-> @.edges, attr |-> ApplyReps(case, @.attr, RepImg(l, iv))]]
+              ELSE IF out # "applied"
               THEN [st EXCEPT !.todo = @ \ {phi}, !.calls = @ \cup {[li |-> st.li, phi |-> phi, out |-> out]}]
               ELSE [st EXCEPT !.todo = @ \ {phi}, !.calls = @ \cup {[li |-> st.li, phi |-> phi, out |-> out]},
                               !.rm = @ \cup DelImg(l, iv),                                            \* scheduled for removal
